@@ -67,6 +67,12 @@ Inductive rawitem :=
 Definition item_str (r : rawitem) : bytes :=
   match r with RPlain s => s | RComplex s _ => s | RNoQuote s => s end.
 
+Definition item_suffix (r : rawitem) : bytes :=
+  match r with RComplex _ sfx => sfx | _ => [] end.
+(* PlainItem and ComplexItem quote their text, noQuoteItem does not *)
+Definition quotes (r : rawitem) : bool :=
+  match r with RNoQuote _ => false | _ => true end.
+
 (* modes.CompletionItem: ToInsert and the text of ToShow (= the stem when
    Display is nil or, for file names, ui.T(full)) *)
 Record citem := mkItem { to_insert : bytes; to_show : bytes }.
